@@ -388,6 +388,7 @@ class BrownianInterval(brownian_base.BaseBrownian, _Interval):
                  # Dependency tree creation
                  '_average_dt',
                  '_tree_dt',
+                 '_warmup',
                  '_num_evaluations'
                  )
 
@@ -568,7 +569,8 @@ class BrownianInterval(brownian_base.BaseBrownian, _Interval):
             # can instead make both directions O(N log N).
             self._average_dt = 0
             self._tree_dt = t1 - t0
-            self._num_evaluations = -100  # start off with a warmup period to get a decent estimate of the average
+            self._warmup = 100  # start off with a warmup period to get a decent estimate of the average
+            self._num_evaluations = -self._warmup
             if dt is not None:
                 # Create the dependency tree based on the supplied hint `dt`.
                 self._create_dependency_tree(dt)
@@ -624,16 +626,20 @@ class BrownianInterval(brownian_base.BaseBrownian, _Interval):
         else:
             if self._dt is None and not self._halfway_tree:
                 self._num_evaluations += 1
+                # Compute average step size so far. The warm-up queries count too: the point of the warm-up is to have
+                # a decent estimate of the average by the time it is first used.
+                num_queries = self._num_evaluations + self._warmup
+                dt = tb - ta
+                self._average_dt = (dt + self._average_dt * (num_queries - 1)) / num_queries
                 # We start off with "negative" num evaluations, to give us a small warm-up period at the start.
                 if self._num_evaluations > 0:
-                    # Compute average step size so far
-                    dt = tb - ta
-                    self._average_dt = (dt + self._average_dt * (self._num_evaluations - 1)) / self._num_evaluations
                     if self._average_dt < 0.5 * self._tree_dt:
                         # If 'dt' wasn't specified, then check the average interval length against the size of the
                         # bottom of the dependency tree. If we're below halfway then refine the tree by splitting all
                         # the bottom pieces into two.
-                        self._create_dependency_tree(dt)
+                        # (Size the tree by the average, not by the current query, which may be arbitrarily short, e.g.
+                        # the clipped last step of a solve.)
+                        self._create_dependency_tree(self._average_dt)
 
             # Find the intervals that correspond to the query. We start our search at the last interval we accessed in
             # the binary tree, as it's likely that the next query will come nearby.
